@@ -219,6 +219,9 @@ def cons(e, f, d=0):
     C = lambda x: cons(x, f, d + 1)
     e = strip(e)
     k = e[0]
+    if k == 'agg' and e[1] == 'grammar::Ident' and len(e[2]) == 1:
+        # `Ident(s)` written as a tuple-struct literal is `s.into()` / `Ident::from(s)`: the identifier with that text
+        return C(e[2][0][1])
     if k == 'agg':
         nm = e[1].replace('std::result::Result::', '').replace('std::option::Option::', '').replace('grammar::', '')
         if nm.startswith('parser::'):
@@ -263,6 +266,8 @@ def cons(e, f, d=0):
     if k == 'str':
         return repr(e[1])
     if k == 'int':
+        if len(e) > 2 and e[2] == 'char' and isinstance(e[1], int) and 0 < e[1] < 0x110000:
+            return repr(chr(e[1]))          # `s.push('<')` appends what `s += "<"` appends
         return str(e[1])
     if k == 'field':
         return C(e[1]) + '.' + e[2]
